@@ -225,7 +225,7 @@ def run_tlc(module, cfg_text, env=None, workers=1, timeout=900, heap="8g", extra
     e.update(env or {})
     if names:
         e["VERIF_NAMES"] = names_file()
-    cmd = ["timeout", str(timeout), "java", "-XX:+UseParallelGC", "-Xmx" + heap, "-Xss64m", "-cp", TLC_CP, "tlc2.TLC",
+    cmd = ["timeout", str(timeout), "java", "-XX:+UseParallelGC", "-Xmx" + heap, "-Xss768m", "-cp", TLC_CP, "tlc2.TLC",
            "-workers", str(workers), "-metadir", os.path.join(meta, "states"), "-config", cfg] + list(extra) + [module + ".tla"]
     t0 = time.time()
     r = subprocess.run(cmd, cwd=SPEC, env=e, stdout=subprocess.PIPE, stderr=subprocess.STDOUT, text=True, errors="replace")
